@@ -27,6 +27,7 @@
   is inline in the worker's loop and is exercised by the socket-level runs of C06 / C18 only.
 -/
 import Aquatic.Lemmas.UringSend
+import Aquatic.Generated.Locks
 
 namespace Aquatic.UringSend.Props
 
@@ -211,6 +212,34 @@ theorem enqueue_progress {ρ : Type} (fits : ρ → Bool) (k : Nat) (w : W ρ) (
     have := handled_mono fits k { w with sb := ⟨w.sb.free.set i false, i + 1⟩, queue := q, inflight := w.inflight ++ [(i, r)], handled := w.handled ++ [r] }
     simp only [List.length_append, List.length_cons, List.length_nil] at this
     omega
+
+
+/-- A reply is put back only when the whole pool is in flight: after an iteration end (hint at 0), in
+a state satisfying the pool invariant, "no buffers" means that as many sends are uncompleted as the
+pool has buffers. -/
+theorem no_buffers_means_all_in_flight {ρ : Type} (w : W ρ) (hp : PoolInv w) (hl : w.sb.likely = 0)
+    (hn : w.sb.nextFree = none) : w.inflight.length = w.sb.free.length := by
+  have hall : ∀ j, j < w.sb.free.length → w.sb.free[j]? = some false := fun j hj => nextFree_none w.sb hn j (by omega) hj
+  have hperm : (w.inflight.map Prod.fst).Perm (List.range w.sb.free.length) := by
+    rw [List.perm_ext_iff_of_nodup hp.nodup List.nodup_range]
+    intro a
+    rw [hp.agree a, List.mem_range]
+    constructor
+    · intro h; exact lt_of_getElem?_some h
+    · exact hall a
+  have := hperm.length_eq
+  simpa using this
+
+
+/-! ### tie for the queue handling, which is inline in the worker's loop -/
+
+/-- The operations on `local_responses` as they stand in uring/mod.rs (regenerated on every run): the
+send phase takes replies from the front, the only put-back goes to the front and is followed by
+`break`, completions append at the back - what `enqueuePhase` and `W.arrive` were read from. -/
+theorem queue_ops_as_modelled :
+    Generated.uringQueueOps =
+      [("run_inner", "pop_front", "-"), ("run_inner", "push_front", "break"),
+       ("handle_cqe", "push_back", "-"), ("handle_cqe", "push_back", "-")] := by decide
 
 /-! ### non-vacuity: a pool of two buffers under pressure -/
 
